@@ -365,6 +365,12 @@ def ops_for(pid):
                 resume("window(n=2).groupby(<streaming series k>).x.sum", lambda s, st: s.window(n=2, with_state=True, start=st).groupby(s.k).x.sum()),
                 resume("window(n=3).groupby(<streaming series k>).x.count", lambda s, st: s.window(n=3, with_state=True, start=st).groupby(s.k).x.count()),
                 resume('window(n=2)[x,y].mean', lambda s, st: s.window(n=2, with_state=True, start=st)[['x', 'y']].mean()),
+                resume('window(n=2).x.full', lambda s, st: s.window(n=2, with_state=True, start=st).x.full()),
+                resume('window(n=3).x.count', lambda s, st: s.window(n=3, with_state=True, start=st).x.count()),
+                resume('window(n=2).x.std', lambda s, st: s.window(n=2, with_state=True, start=st).x.std()),
+                resume('window(n=2).k.value_counts', lambda s, st: s.window(n=2, with_state=True, start=st).k.value_counts()),
+                resume('(window(n=2).x * 2).sum', lambda s, st: (s.window(n=2, with_state=True, start=st).x * 2).sum()),
+                resume('expanding().x.sum', lambda s, st: s.expanding(with_state=True, start=st).x.sum()),
                 resume('expanding()[x,y].mean', lambda s, st: s.expanding(with_state=True, start=st)[['x', 'y']].mean()),
                 resume('ewm(com=1).x.mean', lambda s, st: s.ewm(com=1, with_state=True, start=st).x.mean()),
                 resume('ewm(com=0.5)[x,y].mean', lambda s, st: s.ewm(com=0.5, with_state=True, start=st)[['x', 'y']].mean()),
